@@ -28,6 +28,8 @@ TECHNIQUE += '; line index (= C12.R3); include-cycle contract of Grammar.initial
 LEVEL_TEXT += " Added clauses: line/column/source line agree with the position (C12.R3); an include cycle is a GrammarError; digit runs beyond Python's limit and constants with unhashable keys fail the match; every valid pattern can be written into messages and generated code."
 TECHNIQUE += '; termination of every eat entry (_eat_regex_list); fixpoint iteration of constant() under evaluators that never converge (= C17.R7)'
 LEVEL_TEXT += ' Added clauses: comment-eating loops end on empty matches; deep evaluation of a constant ends.'
+TECHNIQUE += '; totality of the message properties over None and text'
+LEVEL_TEXT += ' Added clause: every failure message renders for what raise sites hand over (None included).'
 LEVEL_NOTE = 'Trusted: the exception hierarchy of tatsu/exceptions.py; int()/float() raise ValueError on an empty string.'
 EXPLANATION = ('Static analysis of /repo sources, TatSu not imported. Raise sites are enumerated and classified through the static '
                'class table; scanner/consumer pairs of tatsu/input/cursor.py are analysed with the path engine and the '
